@@ -143,8 +143,9 @@ def gen(rng, tier):
         pk = [other_packet(rng) for _ in range(rng.randrange(0, 6))]
         out.append(Case("pat.read %s %d %d" % (wire(pk), rng.randrange(2), rng.choice([0, 1, 100, 188, 1000])),
                         kind="stream-no-pat", theorem="C07_read_pat_not_found"))
-        out.append(Case("pat.read %s 2 %d" % (wire(pk), rng.choice([0, 50, 188])), kind="stream-reader-error",
-                        theorem="C07_read_pat_not_found"))
+        # a reader error other than EOF is passed on (lemma read_pat_reader_error); not part of the property text
+        out.append(Case("pat.read %s 2 %d" % (wire(pk), rng.choice([0, 50, 188])), kind="fidelity-stream-reader-error",
+                        decides=False, nontrivial=False, theorem="read_pat_reader_error"))
     # ---- IsPMT
     for i, ((e, _), pay) in enumerate(zip(plan, bare)):
         if len(pay) == 188 or (not thorough and i % 2):
@@ -210,9 +211,56 @@ def gen(rng, tier):
     return out
 
 
+def payload_of(pkt):
+    if not pkt[3] & 0x10:
+        return None
+    start = 4 + ((1 + pkt[4]) if pkt[3] & 0x20 else 0)
+    return pkt[start:] if start <= 188 else None
+
+
+def wf_payload(b):
+    """pointer_field 0, table_id 0, a complete section with section_length = 9 + 4n, not 188 bytes long"""
+    if len(b) < 13 or len(b) == 188 or b[0] != 0 or b[1] != 0:
+        return False
+    sl = ((b[2] & 3) << 8) | b[3]
+    return sl >= 9 and (sl - 9) % 4 == 0 and 4 + sl <= len(b) and (b[2] & 0x0C) == 0
+
+
+def wf_carrier(b):
+    if len(b) == 188:
+        p = payload_of(b)
+        return p is not None and wf_payload(p)
+    return wf_payload(b)
+
+
+def line_decides(line):
+    """is this request inside the hypotheses of C07 (used for corpus and replay lines)"""
+    f = line.split()
+    try:
+        if f[0] == "pat.new":
+            return wf_carrier(unhx(f[1]))
+        if f[0] == "pat.read":
+            v = vlib.parse_val("[ " + line[len("pat.read "):] + " ]")
+            pkts, tail = v[0], v[1]
+            if any(len(p) != 188 for p in pkts):
+                return False
+            for p in pkts:
+                if (p[1] & 0x1F) == 0 and p[2] == 0:
+                    q = payload_of(p)
+                    return q is not None and wf_payload(q)
+            return tail in (0, 1)
+        if f[0] == "pat.ispmt":
+            v = vlib.parse_val("[ " + line[len("pat.ispmt "):] + " ]")
+            return len(v[0]) == 188 and (len(v[1]) == 0 or wf_carrier(v[1][0]))
+    except Exception:
+        return False
+    return False
+
+
 def case_of_line(line, kind):
-    dec = not kind.startswith("fidelity") and kind not in ("", "replay-fidelity")
-    return Case(line, kind=kind or "replay", decides=dec, nontrivial=dec)
+    dec = line_decides(line) and not kind.startswith("fidelity")
+    return Case(line, kind=(kind or "replay") if dec or kind.startswith("fidelity") else "fidelity-" + (kind or "replay"),
+                decides=dec, nontrivial=dec)
 
 
 def search(c, rng):
